@@ -506,6 +506,42 @@ const VISIBILITY_PROBES: [&str; 20] = [
     "let base = object begin let count = 7; function read() -> this.count; end;\nlet child = object extends base begin function peek() -> count; end;\nprint(\"~\\n\", child.read());\nprint(\"a\\n\");\nchild.peek();\nprint(\"b\\n\");\n",
 ];
 
+/// A `let` in a branch that is not taken (or a loop that is not entered) still introduces its variable into the
+/// enclosing scope - branches and loops open none. The reference does not judge *reads* of such a variable, but an
+/// assignment defines it, and both it and later reads concern the frame's own variable, never an outer one of the
+/// same name. Expected outputs are written down here (source, stdout).
+const UNSET_VARIABLE_PROBES: [(&str, &str); 8] = [
+    ("let x = 10;\nfunction f() -> begin if false then let x = 1; x <- 2; x end;\nprint(\"~ ~\\n\", f(), x);\n", "2 10\n"),
+    ("let y = 10;\nbegin if false then let y = 1; y <- 3; print(\"~\\n\", y) end;\nprint(\"~\\n\", y);\n", "3\n10\n"),
+    ("let v = 10;\nfunction g() -> begin let w = 0; while w > 5 do let v = 7; v <- 4; v end;\nprint(\"~ ~\\n\", g(), v);\n", "4 10\n"),
+    ("let k = 10;\nlet o = object begin function m() -> begin if null then let k = 1; k <- 5; k + 1 end; end;\nprint(\"~ ~\\n\", o.m(), k);\n", "6 10\n"),
+    ("let q = 10;\nfunction h(c) -> begin if c then 0 else let q = 1; q <- q + 1; q end;\nprint(\"~ ~\\n\", h(false), q);\n", "2 10\n"),
+    ("let z = 10;\nfunction p() -> begin if false then let z = 1 else 0; z <- 8; begin z <- z + 1 end; z end;\nprint(\"~ ~\\n\", p(), z);\n", "9 10\n"),
+    ("let a = 10;\nfunction r(n) -> begin if n > 0 then let a = n; a <- a + 100; a end;\nprint(\"~ ~\\n\", r(5), a);\n", "105 10\n"),
+    ("let t = 10;\nfunction s() -> begin if false then let t = 1; begin let t = 2; t <- t + 1 end; t <- 6; t end;\nprint(\"~ ~\\n\", s(), t);\n", "6 10\n"),
+];
+
+fn c12_unset_probes(rep: &mut Report) {
+    for (k, (src, want)) in UNSET_VARIABLE_PROBES.iter().enumerate() {
+        rep.evaluations += 1;
+        let p = real::pipeline_from_source(src, 100_000);
+        rep.conclusive += 1;
+        let (out, ok, err) = match (&p.stage_error, &p.run) {
+            (Some((st, e)), _) => (String::new(), false, format!("{}: {}", st, e)),
+            (None, Some(r)) => (r.out.clone(), r.ok, r.err.clone()),
+            _ => (String::new(), false, "no run".to_string()),
+        };
+        rep.bump("c12-size", "unset-variable probes");
+        if !ok || out != *want {
+            rep.violation(
+                "C12:unset-variable",
+                format!("probe {}: a `let` in a branch that is not taken still introduces its variable into the enclosing scope: expected success with {:?}, observed ok={} out={:?} err={}\n{}", k, want, ok, out, err, src),
+                json!({"check":"C12","unset_src":src,"want":want}),
+            );
+        }
+    }
+}
+
 fn c12_hazard_probes(rep: &mut Report) {
     for (kind, src) in HAZARD_PROBES.iter() {
         rep.evaluations += 1;
@@ -544,12 +580,17 @@ pub fn c12(ctx: &Ctx, rep: &mut Report) {
             c12_hazard_probes(rep);
             return;
         }
+        if r.get("unset_src").is_some() {
+            c12_unset_probes(rep);
+            return;
+        }
     }
     if run_replay(ctx, rep, "C12") {
         return;
     }
     if ctx.shard == 0 {
         c12_hazard_probes(rep);
+        c12_unset_probes(rep);
         for (k, src) in README_SCOPE_PROBES.iter().chain(VISIBILITY_PROBES.iter()).enumerate() {
             match real::parse(src) {
                 Ok(ast) => {
@@ -561,6 +602,19 @@ pub fn c12(ctx: &Ctx, rep: &mut Report) {
                     rep.bump("c12-size", "readme-probes");
                 }
                 Err(e) => rep.inconsistency(format!("README scoping probe {} does not parse: {}", k, e)),
+            }
+        }
+        // 65 540 blocks in one frame
+        for (name, src) in scope_capacity_sources() {
+            if let Ok(ast) = real::parse(&src) {
+                let mut rng = ctx.rng("C12cap", 0);
+                let mut o = JudgeOpts::fast();
+                o.big = true;
+                let j = judge(rep, "C12", &format!("capacity:{}", name), &ast, &src, &mut rng, o);
+                if !j.judged {
+                    rep.inconsistency(format!("scope capacity shape {} is not judged by the reference: {:?}", name, j.outcome.res));
+                }
+                rep.bump("c12-size", "65 540 blocks in one frame");
             }
         }
         // the fixed stress shapes that are about scopes and names
